@@ -153,6 +153,67 @@ Section Blocks.
   Qed.
 End Blocks.
 
+(* ---- any list of boundaries forms blocks ---- *)
+Definition bstep (i acc b : nat) : nat := if Nat.leb b i then Nat.max acc b else acc.
+Lemma blk_start_fold aa i : blk_start aa i = fold_left (bstep i) aa 0%nat.
+Proof. reflexivity. Qed.
+
+Lemma bs_le aa : forall acc i, (acc <= i)%nat -> (fold_left (bstep i) aa acc <= i)%nat.
+Proof.
+  induction aa as [|b r IH]; intros acc i H; cbn [fold_left]; [exact H|].
+  apply IH. unfold bstep. destruct (Nat.leb_spec b i); lia.
+Qed.
+Lemma bs_ge aa : forall acc i, (acc <= fold_left (bstep i) aa acc)%nat.
+Proof.
+  induction aa as [|b r IH]; intros acc i; cbn [fold_left]; [lia|].
+  etransitivity; [|apply IH]. unfold bstep. destruct (Nat.leb_spec b i); lia.
+Qed.
+Lemma bs_hit aa i : In i aa -> forall acc, (acc <= i)%nat -> fold_left (bstep i) aa acc = i.
+Proof.
+  induction aa as [|b r IH]; intros Hin acc H; [contradiction|]. cbn [fold_left].
+  destruct (Nat.eq_dec b i) as [E|E].
+  - subst b. unfold bstep at 2. rewrite Nat.leb_refl. replace (Nat.max acc i) with i by lia.
+    apply Nat.le_antisymm; [apply bs_le; lia|apply bs_ge].
+  - destruct Hin as [C|Hin]; [contradiction|]. apply IH; [exact Hin|].
+    unfold bstep. destruct (Nat.leb_spec b i); lia.
+Qed.
+Lemma bs_miss aa i : ~ In (S i) aa -> forall acc, fold_left (bstep (S i)) aa acc = fold_left (bstep i) aa acc.
+Proof.
+  induction aa as [|b r IH]; intros Hn acc; [reflexivity|]. cbn [fold_left].
+  assert (Hb : b <> S i) by (intros C; apply Hn; left; exact C).
+  assert (Hr : ~ In (S i) r) by (intros C; apply Hn; right; exact C).
+  replace (bstep (S i) acc b) with (bstep i acc b).
+  - apply IH. exact Hr.
+  - unfold bstep. destruct (Nat.leb_spec b i), (Nat.leb_spec b (S i)); try reflexivity; lia.
+Qed.
+Lemma blk_last_in aa i : blk_last aa i = true <-> In (S i) aa.
+Proof.
+  unfold blk_last. rewrite existsb_exists. split.
+  - intros (y & Hy & E). apply Nat.eqb_eq in E. subst y. exact Hy.
+  - intros H. exists (S i). split; [exact H|apply Nat.eqb_refl].
+Qed.
+
+(* any list of boundaries forms blocks: the hypothesis of block_physics always holds *)
+Lemma blocks_coherent_any aa n : blocks_coherent aa n = true.
+Proof.
+  unfold blocks_coherent. apply andb_true_iff. split.
+  - apply Nat.eqb_eq. rewrite blk_start_fold. apply Nat.le_antisymm; [apply bs_le; lia|lia].
+  - apply forallb_forall. intros i _. apply andb_true_iff. split.
+    + apply Nat.leb_le. rewrite blk_start_fold. apply bs_le. lia.
+    + destruct (blk_last aa i) eqn:El.
+      * apply Nat.eqb_eq. rewrite blk_start_fold. apply bs_hit; [apply blk_last_in; exact El|lia].
+      * apply Nat.eqb_eq. rewrite !blk_start_fold. apply bs_miss.
+        intros C. apply blk_last_in in C. rewrite C in El. discriminate.
+Qed.
+
+Theorem block_physics_any p n dt x aa : n = List.length dt ->
+  (sp_inflow p == 0)%Q -> (sp_start p == sp_end p)%Q ->
+  Forall (row_ok x) (st_block_rows p n dt aa) ->
+  forall t, (t < n)%nat ->
+    (blk_last aa t = true -> (level p n dt x t == sp_end p)%Q) /\
+    (blk_last aa t = false -> (0 <= level p n dt x t)%Q /\ (level p n dt x t <= sp_size p)%Q).
+Proof. intros Hn Hi Hs Hr. apply block_physics; auto. apply blocks_coherent_any. Qed.
+
 (* The known finding, as a theorem about the faithful model: with start level <> end level the block rows (every block starts again
    from the START level, although the previous block ended at the END level) admit schedules whose physical level leaves [0, size]:
    size 4, start 3, end 1, two blocks of two steps, one unit discharged per step: level 2, 1, 0, -1. *)
